@@ -21,6 +21,36 @@ func c06(c *Check) {
 	n := c.Frozen("C06")
 	c.Extra["frozen_entries"] = n
 
+	c.Rule("C06/positive-answers-only-under-chain-match", "AuthRelayer / GetRelayerAddressOnOtherChain: every return whose boolean answer is not the constant false is dominated by the chain == chainName test on an element of the signer's record", 2)
+	for _, spec := range []struct {
+		fn  string
+		idx int
+	}{{clKeeper + "Keeper.AuthRelayer", 0}, {clKeeper + "Keeper.GetRelayerAddressOnOtherChain", 1}} {
+		fn := c.F(spec.fn)
+		fa := c.P.FA(fn)
+		ok, n := true, 0
+		for _, b := range fn.Blocks {
+			r, isRet := b.Instrs[len(b.Instrs)-1].(*ssa.Return)
+			if !isRet {
+				continue
+			}
+			if k, isC := RetVal(r, spec.idx).(*ssa.Const); isC && k.Value != nil && k.Value.String() == "false" {
+				continue
+			}
+			n++
+			match := false
+			for cond := range fa.PathCondStrings(b) {
+				if strings.Contains(cond, ".Chains[") && strings.Contains(cond, " == ") && strings.Contains(cond, "$2") {
+					match = true
+				}
+			}
+			if !match {
+				ok = false
+			}
+		}
+		c.Req(ok && n >= 1, "C06/positive-answers-only-under-chain-match", funcName(fn), fn.Pos(), fmt.Sprint(n, " positive return(s)"), "a return that can answer 'authorised/found' is not dominated by the chain == chainName comparison")
+	}
+
 	m := msM
 	c.Rule("C06/recv-packet-relayer", "msg server RecvPacket: callback, acknowledgements and success are dominated by the found edge of GetRelayerAddressOnOtherChain(packet.SrcChain, msg.Signer); the fee recipient in every acknowledgement is that call's result", 8)
 	ms := c.F(xibcK + "Keeper.RecvPacket")
